@@ -127,6 +127,12 @@ def decode_out(o):
         except ValueError:
             r["mp"] = None
             r["kind"] = "nonfinite"
+    elif o.get("vtype") == "numlist":
+        try:
+            r["mp_list"] = [mpmath.mpf(float.fromhex(x)) for x in o["value"]]
+        except ValueError:
+            r["mp_list"] = None
+            r["kind"] = "nonfinite"
     elif o.get("vtype") in ("int", "bool"):
         r["mp"] = mpmath.mpf(int(o["value"]))
     return r
